@@ -53,12 +53,12 @@ def check(ctx):
         ctx.require(a[2][0] == "param" and a[2][1] == "data", "R-FLOW", "fue:data-passthrough",
                     "outcome.data := data (only Into::into applied)",
                     "from_uncatchable_error passes `%s` as data instead of its `data` parameter" % show(a[2]), sample={"data": show(a[2])})
-        ctx.require(a[3][0] == "call" and a[3][1].endswith("Vec::<T>::new") and not a[3][2] or a[3][0] == "array" and not a[3][1],
+        ctx.require(a[3][0] == "call" and a[3][1].endswith("Vec::new") and not a[3][2] or a[3][0] == "array" and not a[3][1],
                     "R-FLOW", "fue:no-peers", "next_peer_pks := empty vec",
                     "from_uncatchable_error passes next_peer_pks `%s`, expected an empty vector" % show(a[3]))
         cr = a[4]
         ser = [s for s in walk(cr) if s[0] == "call" and s[1].endswith("::serialize")]
-        okcr = len(ser) == 1 and len(ser[0][2]) == 2 and ser[0][2][1][0] == "call" and ser[0][2][1][1].endswith("HashMap::<K, V>::new")
+        okcr = len(ser) == 1 and len(ser[0][2]) == 2 and ser[0][2][1][0] == "call" and ser[0][2][1][1].endswith("HashMap::new")
         ctx.require(okcr, "R-FLOW", "fue:no-requests", "call_requests := serialize(empty map)",
                     "from_uncatchable_error passes call requests `%s`, expected the serialisation of an empty map" % show(cr))
         ctx.require(a[0][0] == "call" and a[0][1].endswith("to_error_code") and a[0][2][0][0] == "param" and a[0][2][0][1] == "error",
@@ -173,7 +173,7 @@ def check(ctx):
                         "the produced envelope's %s is built from `%s`" % (nm, show(e)[:160]), sample={nm: show(e)})
         na = [pp.operand(x) for x in n[0].args]
         ctx.require(any(s[0] == "call" and s[3] is fer[0] for s in walk(na[2])) and
-                    any(s[0] == "call" and s[1].endswith("InterpreterDataEnvelope::<'_>::serialize") for s in walk(na[2])),
+                    any(s[0] == "call" and s[1].endswith("InterpreterDataEnvelope::serialize") for s in walk(na[2])),
                     "R-COVER", "populate:data-is-envelope", "outcome.data := serialize(envelope)",
                     "the outcome's data is `%s`, not the serialised envelope" % show(na[2])[:200])
         ctx.require(na[0][0] == "param" and na[0][1] == "ret_code" and na[1][0] == "param" and na[1][1] == "error_message",
